@@ -207,9 +207,12 @@ def run(tier, v):
             if "panic" in o:
                 v.violation({"part": "accounting", "run": {k: run_[k] for k in ("crate", "nw", "queue", "batch")}, "observed": "panic: " + o["panic"]})
                 continue
+            if o.get("skipped"):
+                continue
             if o["timed_out"]:
                 if any(w["q"] for w in o["stats"]["workers"]):
-                    raise vlib.ToolError("pool run %d did not drain within 30 s (packets still queued)" % o["id"])
+                    v.violation({"part": "accounting", "run": {k: run_[k] for k in ("crate", "nw", "queue", "batch")}, "observed": "packets reported queued are still in a queue after 30 s: their worker no longer takes packets"})
+                    continue
                 # the queues are empty, yet fewer packets were taken up by workers than were reported queued: packets vanished
                 nq = sum(1 for oc in o["outcomes"] for x in oc if x == "queued")
                 nt = sum(1 for e in o["events"] if e["kind"] == 0)
